@@ -85,6 +85,9 @@ var c06Files = map[string]string{
 	"e/e.go":  "package e\n\nimport \"m/d\"\n\nfunc E() int { return d.FooD() }\n\nfunc FooE() {}\n",
 	"x/x.go":  "package x\n\nfunc X() int { return \"not an int\" }\n",
 	"y/y.go":  "package y\n\nimport \"m/x\"\n\nfunc Y() int { return x.X() }\n",
+	// z imports two packages that are broken for independent reasons (and a healthy one)
+	"x2/x2.go": "package x2\n\nfunc X2() string { return 42 }\n",
+	"z/z.go":   "package z\n\nimport (\n\t\"m/d\"\n\t\"m/x\"\n\t\"m/x2\"\n)\n\nfunc Z() int { return x.X() + len(x2.X2()) + d.FooD() }\n",
 }
 
 var c06Specs map[string]*loader.PackageSpec // by package path
@@ -122,7 +125,7 @@ func c06Setup() error {
 	for _, s := range specs {
 		visit(s)
 	}
-	for _, want := range []string{"m/a", "m/b", "m/c", "m/d", "m/e", "m/x", "m/y"} {
+	for _, want := range []string{"m/a", "m/b", "m/c", "m/d", "m/e", "m/x", "m/y", "m/x2", "m/z"} {
 		if c06Specs[want] == nil {
 			return fmt.Errorf("package %s missing from the graph", want)
 		}
@@ -270,6 +273,7 @@ func c06Scenarios() []c06Scenario {
 		{Name: "two-roots-shared-dep", Roots: []string{"m/b", "m/e"}},
 		{Name: "roots-and-their-deps", Roots: []string{"m/c", "m/d", "m/e"}},
 		{Name: "type-error-dep", Roots: []string{"m/y", "m/e"}},
+		{Name: "two-broken-deps", Roots: []string{"m/z"}},
 		{Name: "analyzer-error", Roots: []string{"m/a"}, FailIn: "m/a"},
 	}
 	var out []c06Scenario
@@ -420,7 +424,7 @@ func c06Body(sc c06Scenario, out *c06Outcome) func() {
 func c06ExpectFailed(sc c06Scenario) map[string]bool {
 	// Only load/type errors fail a package; an analyzer that returns an error fails its own
 	// action and the analyzers depending on it (runner.genericHandle), not the package.
-	intrinsic := map[string]bool{"m/x": true}
+	intrinsic := map[string]bool{"m/x": true, "m/x2": true}
 	memo := map[string]bool{}
 	var f func(p string) bool
 	f = func(p string) bool {
@@ -475,17 +479,15 @@ func c06Result() *vx.Result {
 	return c06Res
 }
 
-const c06Rule = "real lintcmd/runner (instrumented from the current source) on 5 package-graph scenarios x semaphore sizes {1,2,3}: every interleaving of package and analyzer actions up to the delay bound (number of non-default scheduling decisions, preemptive or not) and every map iteration order / select choice up to the deviation bound. Per execution: no deadlock, no channel misuse, no data race on the action structs (happens-before monitor), semaphore empty at the end, each analyzer exactly once per package and after its dependencies, failure exactly along dependency paths; across executions and semaphore sizes: the canonical result text (diagnostics in order, directives, errors) is a single value. Non-trivial = execution with >= 1 preemption or deviation."
+const c06Rule = "real lintcmd/runner (instrumented from the current source) on 6 package-graph scenarios x semaphore sizes {1,2,3}: every interleaving of package and analyzer actions up to the delay bound (number of non-default scheduling decisions, preemptive or not) and every map iteration order / select choice up to the deviation bound. Per execution: no deadlock, no channel misuse, no data race on the action structs (happens-before monitor), semaphore empty at the end, each analyzer exactly once per package and after its dependencies, failure exactly along dependency paths; across executions and semaphore sizes: the canonical result text (diagnostics in order, directives, errors) is a single value. Non-trivial = execution with >= 1 preemption or deviation."
 
 func TestVerifC06(t *testing.T) {
 	res := c06Result()
 	defer res.Write()
 	sched.KeyString = c06KeyString
 	if err := c06Setup(); err != nil {
-		res.Note("setup failed: %v", err)
-		res.NotExhaustive("setup failed")
-		t.Log(err)
-		return
+		// a harness defect: fail the test binary loudly (the driver reports ERROR, exit 2)
+		t.Fatalf("setup failed: %v", err)
 	}
 	c06CacheDir = filepath.Join(vx.ScratchDir(), "cache")
 	os.MkdirAll(c06CacheDir, 0o755)
@@ -583,7 +585,7 @@ func TestVerifC06(t *testing.T) {
 		}
 	}
 	res.Validated = res.Evaluations
-	res.Bound = fmt.Sprintf("completed (scheduling deviations, environment deviations) bounds: %s; ", strings.Join(done, " ")) + "a scheduling deviation is any non-default thread choice (delay bounding); 5 scenarios x 3 semaphore sizes"
+	res.Bound = fmt.Sprintf("completed (scheduling deviations, environment deviations) bounds: %s; ", strings.Join(done, " ")) + "a scheduling deviation is any non-default thread choice (delay bounding); 6 scenarios x 3 semaphore sizes"
 }
 
 func c06Judge(x *sched.Exec, out *c06Outcome, ref string) string {
